@@ -69,7 +69,7 @@ def ic_setup(ctx):
     cms = {"parser_context": noop_cm("parser_context")}
     env = {"self": self, "cfg": caller_cfg, "instantiate_groups": groups_on}
     return Setup(env=env, calls=calls, consts=consts, cms=cms, symcall=symcall,
-                 data=dict(actions=actions, with_group=with_group, groups_on=groups_on, sub=sub, value_state=value_state, stored=stored, spec_vals=spec_vals, copy=copy, caller=caller_cfg,
+                 data=dict(self_rec=self, self_attrs=dict(self.attrs), actions=actions, with_group=with_group, groups_on=groups_on, sub=sub, value_state=value_state, stored=stored, spec_vals=spec_vals, copy=copy, caller=caller_cfg,
                            order_obj=order_obj, sub_cfg=sub_cfg))
 
 
@@ -99,6 +99,8 @@ def ic_post(ctx, st, result):
     final = [e for e in ev if e[0] == "apply-links" and e[3] is not None]
     ctx.oblige("post", "remaining-links-are-applied-once-at-the-end-in-the-link-order", len(final) == 1 and final[0][3] is d["order_obj"] and ev.index(final[0]) > max([ev.index(e) for e in ev if e[0] in ("instantiate", "instantiate-group")] + [-1]))
     ctx.oblige("frame", "works-on-a-meta-stripped-copy:the-caller's-configuration-is-never-written", not [e for e in ev if e[0] == "TOUCHED-CALLER-CFG"] and result is d["copy"] and all(e[1] is d["copy"] for e in ev if e[0] == "apply-links"))
+    ctx.oblige("frame", "the-parser-itself-is-not-modified(nothing is remembered from one call to the next: the link order is computed from the current links every time)",
+               set(d["self_rec"].attrs) == set(d["self_attrs"]) and all(d["self_rec"].attrs[k] is v for k, v in d["self_attrs"].items()) and len([e for e in ev if e[0] == "reorder"]) == 1)
     subs = [e for e in ev if e[0] == "sub.instantiate"]
     if d["sub"]:
         ctx.oblige("post", "the-selected-subcommand's-section-is-instantiated-by-its-own-parser-with-the-same-groups-flag", len(subs) == 1 and subs[0][1] is d["sub_cfg"] and subs[0][2].get("instantiate_groups") is d["groups_on"])
